@@ -901,6 +901,13 @@ pub fn prefilter_families() -> Vec<PFam> {
         pfam("start-nonascii-only", vec![vec![0xC3, 0xA9, b't'], vec![0xE2, 0x82, 0xAC]], false),
         pfam("packed-nonascii", vec![vec![0xE9, b't', 0xE9], vec![b'n', b'a', 0xEF, b'v', b'e'], vec![0xFC, b'b', b'e', b'r'], vec![b'z', b'z', 0x80, b'z'], vec![0xFF, 0xFE, b'q']], false),
         pfam("rare-nonascii", vec![vec![b'e', 0xFF], vec![b' ', 0xFF], vec![b't', 0xFF, b'e']], false),
+        // the ends of the byte range among two / three rare bytes
+        pfam("rare2-ff", vec![vec![b'e', 0xFF], b("tq")], false),
+        pfam("rare3-ff", vec![vec![b'e', 0xFF], b("tq"), b(" j")], false),
+        pfam("rare2-00", vec![vec![b'e', 0x00], b("tq")], false),
+        pfam("rare-ff-start", vec![vec![0xFF, 0xD8, 0xFF], vec![0x89, b'P', b'N', b'G', b'\r', b'\n']], false),
+        pfam("start2-ff-00", vec![vec![0xFF, b'a'], vec![0x00, b'b']], false),
+        pfam("start3-ff-fe-00", vec![vec![0xFF, b'a'], vec![0x00, b'b'], vec![0xFE, b'c']], false),
         pfam_n("n17-packed", 17),
         pfam_n("n65-packed", 65),
         pfam_n("n129-packed", 129),
@@ -920,6 +927,12 @@ pub fn prefilter_families() -> Vec<PFam> {
         pfam("ci-long-single-256", vec![b("ab").iter().cycle().take(256).cloned().collect()], true),
         pfam("ci-long-first-256", vec![b("ab").iter().cycle().take(256).cloned().collect(), b("xy"), b("qr"), b("jk"), b("vw")], true),
         pfam("ci-letterfree-first", vec![b("@"), b("["), b("`"), b("{"), b("xy")], true),
+        // case-insensitive lists whose start-byte set (both cases counted)
+        // has exactly three members, all patterns of length >= 2
+        pfam("ci-start3-letter-nonletter", vec![b("foo"), b("_bar")], true),
+        pfam("ci-start3-nonletters", vec![b("<div"), b("&nbsp;"), b("#id")], true),
+        pfam("ci-start3-rare4", vec![b("sam"), b("sauron"), b("shire"), b("1ring")], true),
+        pfam("ci-start3-digit-first", vec![b("1st"), b("quux"), b("zebra")], true),
         pfam("ci-rare-offset", vec![b("aq"), b("bbbbq"), b("ccq")], true),
         pfam("ci-rare-offset-2", vec![b("zA"), b("eeeZa"), b("ttza")], true),
         pfam("ci-start", vec![b("ab"), b("ac")], true),
@@ -1656,8 +1669,94 @@ pub fn check_input_forms(rep: &Report, st: &mut Stats) {
     }
 }
 
+/// Match lists with about 2^16 entries in ONE state (counts kept in 16-bit
+/// fields would wrap): n copies of "ab"; and "ab" followed by n copies of
+/// "b" (the state of "ab" inherits them through its failure link). Standard
+/// semantics, every automaton kind: the overlapping iterator and the stepwise
+/// search must list every pattern id exactly once, in supply order.
+pub fn check_huge_match_lists(rep: &Report) {
+    let mut items = vec![];
+    let ns: Vec<usize> = if rep.thorough() { vec![65535, 65536, 65537, 131072] } else { vec![65536] };
+    for n in ns {
+        for shape in 0..2 {
+            for ak in AKINDS {
+                items.push((n, shape, ak));
+            }
+        }
+    }
+    let desc = |i: usize| format!("huge match list n={} shape={} {}", items[i].0, items[i].1, akind_name(items[i].2));
+    par_for_desc(rep, items.len(), &desc, |ix, st| {
+        let (n, shape, ak) = items[ix];
+        let mut pats: Pats = vec![];
+        if shape == 1 {
+            pats.push(b("ab"));
+        }
+        pats.extend(std::iter::repeat(if shape == 0 { b("ab") } else { b("b") }).take(n));
+        let ac = match build_ac(&pats, Kind::Std, false, ak, true) {
+            Ok(a) => a,
+            Err(e) => {
+                rep.violation(Violation { property: rep.property.clone(), what: "build-failed".into(), case: J::obj().set("engine", J::s("acdiff")).set("mode", J::s("huge-match-list")), detail: format!("{} patterns: {}", pats.len(), e), tags: vec![] });
+                return;
+            }
+        };
+        let h = b("xabx");
+        // expected: shape 0: (i, 1, 3) for i in 0..n; shape 1: (0, 1, 3) then (i, 2, 3) for i in 1..=n
+        let expected: Vec<M> = if shape == 0 { (0..n).map(|i| (i, 1, 3)).collect() } else { std::iter::once((0usize, 1usize, 3usize)).chain((1..=n).map(|i| (i, 2, 3))).collect() };
+        let got_iter = catch_unwind(AssertUnwindSafe(|| ac.find_overlapping_iter(&h).take(expected.len() + 8).map(mm).collect::<Vec<M>>()));
+        let got_steps = catch_unwind(AssertUnwindSafe(|| {
+            let mut stt = aho_corasick::automaton::OverlappingState::start();
+            let mut v = vec![];
+            for _ in 0..expected.len() + 8 {
+                ac.find_overlapping(&h, &mut stt);
+                match stt.get_match() {
+                    Some(m) => v.push(mm(m)),
+                    None => break,
+                }
+            }
+            v
+        }));
+        let first = catch_unwind(AssertUnwindSafe(|| ac.find(&h).map(mm)));
+        st.add("huge_match_list_cases", 1);
+        for (api, got) in [("find_overlapping_iter", &got_iter), ("stepwise find_overlapping", &got_steps)] {
+            let ok = got.as_ref().ok() == Some(&expected);
+            if !ok {
+                let summary = match got {
+                    Ok(v) => {
+                        let firstdiff = v.iter().zip(expected.iter()).position(|(a, b2)| a != b2);
+                        format!("{} matches (expected {}), first difference at index {:?}: got {:?}", v.len(), expected.len(), firstdiff, firstdiff.and_then(|i| v.get(i)))
+                    }
+                    Err(p) => format!("PANIC {}", crate::aut::panic_msg(p)),
+                };
+                rep.violation(Violation {
+                    property: rep.property.clone(),
+                    what: "huge-match-list".into(),
+                    case: J::obj().set("engine", J::s("acdiff")).set("mode", J::s("huge-match-list")).set("n", J::i(n as i64)).set("shape", J::i(shape as i64)).set("ackind", J::s(akind_name(ak))),
+                    detail: format!("{} {} on \"xabx\", {}: {}", if shape == 0 { format!("{} x \"ab\"", n) } else { format!("\"ab\" + {} x \"b\"", n) }, akind_name(ak), api, summary),
+                    tags: vec![],
+                });
+                return;
+            }
+        }
+        if first.as_ref().ok() != Some(&Some((0, 1, 3))) {
+            rep.violation(Violation {
+                property: rep.property.clone(),
+                what: "huge-match-list".into(),
+                case: J::obj().set("engine", J::s("acdiff")).set("mode", J::s("huge-match-list")).set("n", J::i(n as i64)).set("shape", J::i(shape as i64)).set("ackind", J::s(akind_name(ak))),
+                detail: format!("n={} shape={} {}: find gives {:?}", n, shape, akind_name(ak), first.map_err(|p| crate::aut::panic_msg(&p))),
+                tags: vec![],
+            });
+        }
+    });
+}
+
 /// Replay of "acdiff" cases (C05 prefilter differential, C10 span).
 pub fn replay_acdiff(case: &J) -> i32 {
+    if case.str_of("mode") == "huge-match-list" {
+        let rep = Report::new("C03", "quick");
+        check_huge_match_lists(&rep);
+        println!("huge match lists re-run: {} violation(s)", rep.nviol());
+        return (rep.nviol() > 0) as i32;
+    }
     let pats = crate::report::pats_from_j(case.get("patterns").unwrap_or(&J::Null));
     let kind = Kind::from_name(&case.str_of("kind"));
     let ci = case.bool_of("ci");
